@@ -21,13 +21,13 @@ def grammarErr : Err := .syntax .grammar "" ⟨0, 0⟩
 def loadsText (fs : FS) (T : Tables K) (text : String) : Except Err (Program K) × Tables K :=
   match parseText text with
   | none => (.error grammarErr, T)
-  | some sc => loadStep fs fs.procCwd T sc
+  | some sc => loadStep SetOrder.id fs fs.procCwd T sc
 
 /-- `blackbird.load(filename)` -/
 def loadFile (fs : FS) (T : Tables K) (filename : String) : Except Err (Program K) × Tables K :=
   match fs.read filename with
   | none => (.error .file, T)
   | some none => (.error grammarErr, T)
-  | some (some sc) => loadStep fs (pathDirname filename) T sc
+  | some (some sc) => loadStep SetOrder.id fs (pathDirname filename) T sc
 
 end Blackbird
